@@ -901,6 +901,69 @@ def arguments_of_temporaries(fnode):
     return changed
 
 
+def comprehensions_of_collect_loops(fnode):
+    """x = [] ; for T in IT: [if C:] x.append(E)      ->   x = [E for T in IT if C]
+       x = {} ; for T in IT: [if C:] x[K] = V         ->   x = {K: V for T in IT if C}
+    when the loop follows the empty display immediately, its body is that one statement (under nested else-less `if`s), x is not mentioned
+    in IT / C / E, the loop's variables are not read after the loop (a comprehension's do not leak) and - for the dict - key and value do
+    not both contain calls (a comprehension evaluates the key first, the store the value).  The inverse of writing a comprehension out."""
+    changed = False
+    a = fnode.args
+    params = {p.arg for p in a.posonlyargs + a.args + a.kwonlyargs}
+    for owner in ast.walk(fnode):
+        for fld in ("body", "orelse", "finalbody"):
+            lst = getattr(owner, fld, None)
+            if not (isinstance(lst, list) and lst and isinstance(lst[0], ast.stmt)):
+                continue
+            k = 0
+            while k + 1 < len(lst):
+                st, lp = lst[k], lst[k + 1]
+                k += 1
+                if not (isinstance(st, ast.Assign) and len(st.targets) == 1 and isinstance(st.targets[0], ast.Name) and isinstance(lp, ast.For) and not lp.orelse and len(lp.body) == 1):
+                    continue
+                x = st.targets[0].id
+                is_list = isinstance(st.value, ast.List) and not st.value.elts
+                is_dict = isinstance(st.value, ast.Dict) and not st.value.keys
+                if not (is_list or is_dict) or x in params:
+                    continue
+                conds = []
+                inner = lp.body[0]
+                while isinstance(inner, ast.If) and not inner.orelse and len(inner.body) == 1:
+                    conds.append(inner.test)
+                    inner = inner.body[0]
+                comp = None
+                if is_list and isinstance(inner, ast.Expr) and isinstance(inner.value, ast.Call) and isinstance(inner.value.func, ast.Attribute) and inner.value.func.attr == "append" \
+                        and isinstance(inner.value.func.value, ast.Name) and inner.value.func.value.id == x and len(inner.value.args) == 1 and not inner.value.keywords \
+                        and not isinstance(inner.value.args[0], ast.Starred):
+                    parts = [inner.value.args[0]]
+                    comp = lambda: ast.ListComp(elt=parts[0], generators=[ast.comprehension(target=lp.target, iter=lp.iter, ifs=conds, is_async=0)])
+                elif is_dict and isinstance(inner, ast.Assign) and len(inner.targets) == 1 and isinstance(inner.targets[0], ast.Subscript) and isinstance(inner.targets[0].value, ast.Name) \
+                        and inner.targets[0].value.id == x:
+                    parts = [inner.targets[0].slice, inner.value]
+                    if any(isinstance(y, ast.Call) for y in ast.walk(parts[0])) and any(isinstance(y, ast.Call) for y in ast.walk(parts[1])):
+                        continue
+                    comp = lambda: ast.DictComp(key=parts[0], value=parts[1], generators=[ast.comprehension(target=lp.target, iter=lp.iter, ifs=conds, is_async=0)])
+                if comp is None:
+                    continue
+                if any(isinstance(y, ast.Name) and y.id == x for part in parts + conds + [lp.iter] for y in ast.walk(part)):
+                    continue
+                if any(isinstance(y, (ast.Yield, ast.YieldFrom, ast.Await, ast.NamedExpr)) for part in parts + conds + [lp.iter] for y in ast.walk(part)):
+                    continue
+                tnames = {y.id for y in ast.walk(lp.target) if isinstance(y, ast.Name)}
+                if not all(isinstance(y, (ast.Name, ast.Tuple, ast.List)) for y in ast.walk(lp.target) if not isinstance(y, ast.expr_context)):
+                    continue
+                # the loop's variables: bound nowhere else in the function and read only inside the loop
+                inside = {id(y) for y in ast.walk(lp)}
+                if any(isinstance(y, ast.Name) and y.id in tnames and id(y) not in inside for y in ast.walk(fnode)):
+                    continue
+                st.value = ast.copy_location(comp(), st.value)
+                del lst[k]
+                changed = True
+    if changed:
+        ast.fix_missing_locations(fnode)
+    return changed
+
+
 def tests_of_temporaries(fnode):
     """t = E; if t: ..   (or `if not t:`)   with t a plain local bound once and read once - in that test -   ->   if E: ..
     (the inverse of `give the condition a name`; same conditions as for arguments)"""
@@ -1189,6 +1252,7 @@ def apply_synonyms(repo):
         tests_of_temporaries(f.node)
         arguments_of_temporaries(f.node)
         return_of_temporary(f.node)
+        comprehensions_of_collect_loops(f.node)
         unelse_after_exit(f.node)
         if f.name == "main":
             canonical_args_local(f.node)
